@@ -54,11 +54,27 @@ def gen_history(rng):
             ops.append(["rm_f", rng.randrange(len(STATES))])
         else:
             ops.append(["add_y", rng.randrange(len(SYMS))])
-    return {"cls": cls, "ops": ops}
+    init = None
+    if rng.random() < 0.3:
+        # the constructor called with sets (no transition function)
+        k = len(STATES)
+        init = {"states": rng.sample(range(k), rng.randint(0, 2)), "syms": rng.sample(range(len(SYMS)), rng.randint(0, 2)),
+                "starts": rng.sample(range(k), rng.randint(0, 1 if cls == "D" else 2)),
+                "finals": rng.sample(range(k), rng.randint(0, 2))}
+    return {"cls": cls, "ops": ops, "init": init}
 
 
-def new(cls):
-    return {"E": EpsilonNFA, "N": NondeterministicFiniteAutomaton, "D": DeterministicFiniteAutomaton}[cls]()
+def new(cls, init=None):
+    klass = {"E": EpsilonNFA, "N": NondeterministicFiniteAutomaton, "D": DeterministicFiniteAutomaton}[cls]
+    if init is None:
+        return klass()
+    states = {STATES[q] for q in init["states"]}
+    syms = {SYMS[a] for a in init["syms"]}
+    finals = {STATES[q] for q in init["finals"]}
+    if cls == "D":
+        return klass(states=states, input_symbols=syms, start_state=(STATES[init["starts"][0]] if init["starts"] else None),
+                     final_states=finals)
+    return klass(states=states, input_symbols=syms, start_state={STATES[q] for q in init["starts"]}, final_states=finals)
 
 
 def sym(a):
@@ -133,8 +149,22 @@ def fresh_from(fa, cls):
 
 def run_history(case, drv, res):
     cls, ops = case["cls"], case["ops"]
-    fa = new(cls)
-    model = drv.call("fa.objRun", det=(cls == "D"), ops=ops)
+    init = case.get("init")
+    st, fa = outcome(lambda: new(cls, init))
+    if st != "ok":
+        res.tag("constructor_raised")
+        return
+    kw = {"init": init} if init is not None else {}
+    answer = drv.call("fa.objRun", det=(cls == "D"), ops=ops, **kw)
+    model = answer["steps"]
+    st, h0 = outcome(lambda: hidden(fa))
+    res.corr += 1
+    m0 = answer["init"]
+    if st != "ok" or h0["trans"] != [] or any(h0[k] != sorted(m0[k], key=lambda x: (x is None, x))
+                                              for k in ("states", "syms", "starts", "finals")):
+        res.corr_break("fa.__init__", "object after the constructor differs from the object model",
+                       detail={"cls": cls, "init": init, "impl": str(h0)[:300], "model": str(m0)[:300]})
+        return
     res.nontrivial = len(ops) >= 6 and len({o[0] for o in ops}) >= 3
     broken = None
     for idx, op in enumerate(ops):
